@@ -139,6 +139,10 @@ FRAGMENTS = [
 
 #: fragments that make sense for any rank (run on 1-D, 2-D and 3-D inputs)
 FRAGMENTS_ANY = [
+    "pos = (0,) * t.dim()\nr = t[pos] + t[pos[:-1]].sum()",
+    "y = t.clone()\npos = (0,) * (t.dim() - 1)\ny[pos + (1,)] = 7\nr = y",
+    "y = torch.zeros((*t.shape, 2))\nimport itertools\nfor pos in itertools.product(*[range(s) for s in t.shape]):\n    for b in range(2):\n        y[pos + (b,)] = t[pos] * (b + 1)\nr = y",
+    "pos = ()\nr = t[pos]",
     "k = 3\ndef scale(v):\n    return v * k\ndef apply(fn, v):\n    k = 100\n    return fn(v) + k\nr = apply(scale, t)",
     "flag = True\ndef pick(v):\n    return v if flag else -v\ndef twice(g, v):\n    flag = False\n    return g(g(v))\nr = twice(pick, t)",
     "buf = torch.zeros(3)\ndef setk(b, k):\n    b[k] = 1\n    return k\nsetk(buf, 1)\nz = setk(buf, 2)\nr = buf + t.flatten()[0] + z",
